@@ -1,5 +1,6 @@
 import DFV.JsonField
 import DFV.Model.Transform
+import DFV.Model.C13Store
 namespace DFV.Drv
 open Lean DFV DFV.T
 
@@ -35,6 +36,90 @@ def history {σ} (step : σ → Op → M (σ × σ)) (toJ : σ → Json) (s : σ
       | .error e => go cur rest (errJ e :: acc)
   Json.arr (go s ops []).toArray
 
+/-! ## store sessions (round 3): statements refer to objects by the statement that produced them -/
+open DFV.S in
+/-- a Region object named by a path: `{"res": k}` — what statement `k` evaluated to; `{"mesh": k, "part": "region"}`
+— the region of the mesh statement `k` evaluated to; `{"mesh": k, "sub": name}` — its subregion `name` -/
+def resolveReg (s : Store) (results : Array (Option Ref)) (j : Json) : R Nat := do
+  match fldOpt j "res" with
+  | some k =>
+    match results.getD (← natOfJson k) none with
+    | some (.reg i) => pure i
+    | _ => throw "statement did not evaluate to a Region"
+  | none =>
+    let k ← natOfJson (← fld j "mesh")
+    match results.getD k none with
+    | some (.mesh m) =>
+      match s.meshes[m]? with
+      | none => throw "no such mesh"
+      | some mo =>
+        match fldOpt j "sub" with
+        | some nm =>
+          let name ← strOfJson nm
+          match mo.subs.find? (fun p => p.1 == name) with
+          | some p => pure p.2
+          | none => throw s!"mesh has no subregion {name}"
+        | none => pure mo.region
+    | _ => throw "statement did not evaluate to a Mesh"
+
+open DFV.S in
+def resolveMesh (results : Array (Option Ref)) (j : Json) : R Nat := do
+  match results.getD (← natOfJson j) none with
+  | some (.mesh m) => pure m
+  | _ => throw "statement did not evaluate to a Mesh"
+
+open DFV.S in
+def resolveSubs (s : Store) (results : Array (Option Ref)) (j : Json) : R (List (String × Nat)) := do
+  (← arr j).toList.mapM fun e => do
+    let pr ← arr e
+    if pr.size ≠ 2 then throw "subregion entry must be [name, ref]"
+    pure ((← strOfJson pr[0]!), (← resolveReg s results pr[1]!))
+
+open DFV.S in
+def stmtOfJson (s : Store) (results : Array (Option Ref)) (j : Json) : R Stmt := do
+  match ← strOfJson (← fld j "t") with
+  | "region" => pure (.newRegion (← regionOfJson (← fld j "region")))
+  | "mesh" =>
+    let subs ← match fldOpt j "subs" with | some v => resolveSubs s results v | none => pure []
+    pure (.newMesh (← resolveReg s results (← fld j "region")) (← nats j "n")
+      (← match fldOpt j "bc" with | some b => strOfJson b | none => pure "") subs)
+  | "setsubs" => pure (.setSubs (← resolveMesh results (← fld j "mesh")) (← resolveSubs s results (← fld j "subs")))
+  | "meshop" => pure (.meshOp (← resolveMesh results (← fld j "mesh")) (← opOfJson (← fld j "op")))
+  | "regionop" => pure (.regionOp (← resolveReg s results (← fld j "obj")) (← opOfJson (← fld j "op")))
+  | t => throw s!"unknown statement {t}"
+
+open DFV.S in
+def refToJson : Option Ref → Json
+  | none => .null
+  | some (.reg i) => Json.mkObj [("reg", .num (JsonNumber.fromNat i))]
+  | some (.mesh i) => Json.mkObj [("mesh", .num (JsonNumber.fromNat i))]
+
+open DFV.S in
+def storeToJson (s : Store) : Json :=
+  Json.mkObj [("regs", listJ regionToJson s.regs),
+    ("meshes", listJ (fun (mo : MeshObj) => Json.mkObj [("region", .num (JsonNumber.fromNat mo.region)), ("n", natsJ mo.n),
+      ("bc", .str mo.bc),
+      ("subs", listJ (fun (p : String × Nat) => Json.arr #[.str p.1, .num (JsonNumber.fromNat p.2)]) mo.subs)]) s.meshes)]
+
+open DFV.S in
+/-- replay a session, reporting after every statement what it evaluated to and the whole store -/
+def session (stmts : List Json) : R Json := do
+  let mut s : Store := Store.empty
+  let mut results : Array (Option Ref) := #[]
+  let mut out : Array Json := #[]
+  for j in stmts do
+    if (← strOfJson (← fld j "t")) == "skip" then
+      -- a statement the harness could not even form (it names the result of a statement that raised)
+      results := results.push none
+      out := out.push (Json.mkObj [("ret", .null), ("store", storeToJson s)])
+      continue
+    let st ← stmtOfJson s results j
+    let (s', r) := exec s st
+    s := s'
+    results := results.push r
+    out := out.push (Json.mkObj [("ret", refToJson r), ("store", storeToJson s')])
+  pure (Json.arr out)
+
 def c13 (op : String) (j : Json) : Option (R Json) :=
   match op with
   | "region_history" => some do
@@ -49,6 +134,8 @@ def c13 (op : String) (j : Json) : Option (R Json) :=
       let f ← fldOfJson (← fld j "field")
       let ops ← listOf opOfJson (← fld j "ops")
       pure (history stepF fldToJson f ops)
+  | "store_session" => some do
+      session (← arr (← fld j "stmts")).toList
   | "set_subs" => some do
       let m ← meshOfJson (← fld j "mesh")
       let subs ← subsOfJson (← fld j "cand")
